@@ -61,13 +61,16 @@ class ElementTriN3(ElementHcurl):
                 return -p, -dp
             return p, dp
 
+        # shared points (dim, npts) or per-cell points (dim, ncells, npts)
+        subs = 'ijkl,il,k->jkl' if len(X.shape) == 2 else 'ijkl,ikl,k->jkl'
+
         if target_swap == i:
             phi, dphi = get_lbasis_fixed(i)
 
             invDF = mapping.invDF(X, tind)
             detDF = mapping.detDF(X, tind)
 
-            val_final = np.einsum('ijkl,il,k->jkl', invDF, phi, orient)
+            val_final = np.einsum(subs, invDF, phi, orient)
             curl_final = dphi / detDF * orient[:, None]
 
         else:
@@ -77,10 +80,10 @@ class ElementTriN3(ElementHcurl):
             invDF = mapping.invDF(X, tind)
             detDF = mapping.detDF(X, tind)
 
-            val_A = np.einsum('ijkl,il,k->jkl', invDF, phi_A, orient)
+            val_A = np.einsum(subs, invDF, phi_A, orient)
             curl_A = dphi_A / detDF * orient[:, None]
 
-            val_B = np.einsum('ijkl,il,k->jkl', invDF, phi_B, orient)
+            val_B = np.einsum(subs, invDF, phi_B, orient)
             curl_B = dphi_B / detDF * orient[:, None]
 
             if swap_condition == -1:
